@@ -22,7 +22,11 @@ package main
 //         and everything inside structs that are not embedded (named / pointer / tagged), holds its pre-Run value;
 //   (iv)  a settable unit carrying one built-in tag in a plain form (value:"lit", wire:"", prop:"i.k", …) holds the obvious value;
 //   (iii) the recording processor (custom tag `mytag`) was handed exactly the settable units carrying its tag,
-//         with the value part and arguments that the real NewProperty parses from the tag text.
+//         with the value part and arguments that the real NewProperty parses from the tag text;
+//   (v)   for custom tags written in the STRUCTURED form the generator builds from a value and an argument list
+//         (`val,name=item item…,flag`, an item a word or a bracketed group that may contain blanks / commas, see scanStructTag)
+//         the recorded value and arguments equal that structure, read off the tag text by the harness itself
+//         (scanParseStruct) — not by the library's parser (signature scan-custom-args).
 // "unit" = a leaf field, or a struct field the scanner does not descend into.
 //
 // Field NAMES may repeat across different holders (sibling mix-ins declaring the same name, diamonds `Left{Base}`
@@ -778,7 +782,254 @@ func scanOracleSingle(r *scanResult) string {
 			return fmt.Sprintf("FAIL scan-custom %s got %q %s want %q %s", s.path, s.tagStr, showArgsMap(s.args), w.tagStr, showArgsMap(w.args))
 		}
 	}
+	// (v) structured custom tags: the processor was handed the value and the arguments the tag text says
+	structured := map[string]scanStructTag{}
+	for _, u := range r.units {
+		if tv, ok := reflect.StructTag(u.n.tagText()).Lookup(scanCustomTag); ok && scanExported(u.n.name) {
+			if st, ok := scanParseStruct(tv); ok {
+				structured[u.path] = st
+			}
+		}
+	}
+	for _, s := range r.rec.seen {
+		st, ok := structured[s.path]
+		if !ok {
+			continue
+		}
+		if got, want := showArgsMap(scanNormArgs(s.args)), showArgsMap(st.argMap()); s.tagStr != st.val || got != want {
+			return fmt.Sprintf("FAIL scan-custom-args %s tag %q: processor got value %q args %s, the tag says value %q args %s",
+				s.path, st.text(), s.tagStr, scanShowArgsPlain(scanNormArgs(s.args)), st.val, scanShowArgsPlain(st.argMap()))
+		}
+	}
 	return ""
+}
+
+/* ---------- structured custom tags ---------- */
+
+// A custom tag as its author means it: a value and named arguments, each argument a flag or a list of blank-separated
+// items; an item is a word or a bracketed group `( … )` `[ … ]` `{ … }` whose inside may contain blanks, commas and
+// further groups (the tag grammar keeps a bracketed group together).
+type scanArg struct {
+	name  string
+	flag  bool // `name` without `=`
+	items []string
+}
+type scanStructTag struct {
+	val  string
+	args []scanArg
+}
+
+func (t scanStructTag) text() string {
+	s := t.val
+	for _, a := range t.args {
+		s += "," + a.name
+		if !a.flag {
+			s += "=" + strings.Join(a.items, " ")
+		}
+	}
+	return s
+}
+
+// argument name (first letter upper-cased, as every processor of the library looks arguments up) -> items; a flag has none
+func (t scanStructTag) argMap() map[string][]string {
+	m := map[string][]string{}
+	for _, a := range t.args {
+		m[upFirst(a.name)] = append([]string{}, a.items...)
+	}
+	return m
+}
+
+// what the processor was handed, in the same normal form (a flag is stored with one empty item)
+func scanNormArgs(m map[string][]string) map[string][]string {
+	out := map[string][]string{}
+	for k, v := range m {
+		if len(v) == 1 && v[0] == "" {
+			v = nil
+		}
+		out[upFirst(k)] = append([]string{}, v...)
+	}
+	return out
+}
+
+func scanShowArgsPlain(m map[string][]string) string {
+	keys := make([]string, 0, len(m))
+	for k := range m {
+		keys = append(keys, k)
+	}
+	sort.Strings(keys)
+	var parts []string
+	for _, k := range keys {
+		parts = append(parts, fmt.Sprintf("%s=%q", k, m[k]))
+	}
+	return "{" + strings.Join(parts, " ") + "}"
+}
+
+func scanWordByte(c byte, eq bool) bool {
+	return c >= 'a' && c <= 'z' || c >= 'A' && c <= 'Z' || c >= '0' && c <= '9' || strings.IndexByte("._*/-", c) >= 0 || (eq && c == '=')
+}
+
+// scanSplitTop splits s at every sep outside brackets; ok=false when the brackets do not balance
+func scanSplitTop(s string, sep byte) ([]string, bool) {
+	var out []string
+	var stack []byte
+	start := 0
+	for i := 0; i < len(s); i++ {
+		c := s[i]
+		switch c {
+		case '(', '[', '{':
+			stack = append(stack, c)
+		case ')', ']', '}':
+			if len(stack) == 0 || stack[len(stack)-1] != map[byte]byte{')': '(', ']': '[', '}': '{'}[c] {
+				return nil, false
+			}
+			stack = stack[:len(stack)-1]
+		default:
+			if c == sep && len(stack) == 0 {
+				out = append(out, s[start:i])
+				start = i + 1
+			}
+		}
+	}
+	return append(out, s[start:]), len(stack) == 0
+}
+
+// scanItemOK: a word, or ONE bracketed group (closed by its last byte) of words, blanks, commas and groups
+func scanItemOK(it string) bool {
+	if it == "" {
+		return false
+	}
+	if strings.IndexByte("([{", it[0]) < 0 {
+		for i := 0; i < len(it); i++ {
+			if !scanWordByte(it[i], true) {
+				return false
+			}
+		}
+		return true
+	}
+	depth := 0
+	for i := 0; i < len(it); i++ {
+		switch c := it[i]; {
+		case strings.IndexByte("([{", c) >= 0:
+			depth++
+		case strings.IndexByte(")]}", c) >= 0:
+			depth--
+			if depth == 0 && i != len(it)-1 {
+				return false
+			}
+		case c == ' ' || c == ',' || scanWordByte(c, true):
+		default:
+			return false
+		}
+	}
+	return depth == 0
+}
+
+// scanParseStruct reads a tag text of the structured form back into value and arguments — the harness' own reading of
+// the grammar (top-level commas separate arguments, the first `=` ends the name, top-level blanks separate items).
+// ok=false for every text outside the form (empty names or items, repeated names, stray brackets, other bytes): the
+// structured oracle then says nothing.
+func scanParseStruct(text string) (scanStructTag, bool) {
+	var t scanStructTag
+	parts, ok := scanSplitTop(text, ',')
+	if !ok || len(parts) < 2 {
+		return t, false
+	}
+	t.val = parts[0]
+	for i := 0; i < len(t.val); i++ {
+		if !scanWordByte(t.val[i], false) {
+			return t, false
+		}
+	}
+	names := map[string]bool{}
+	for _, p := range parts[1:] {
+		a := scanArg{name: p, flag: true}
+		if i := strings.IndexByte(p, '='); i >= 0 {
+			a.name, a.flag = p[:i], false
+			a.items, ok = scanSplitTop(p[i+1:], ' ')
+			if !ok {
+				return t, false
+			}
+			for _, it := range a.items {
+				if !scanItemOK(it) {
+					return t, false
+				}
+			}
+		}
+		if a.name == "" || !(a.name[0] >= 'a' && a.name[0] <= 'z' || a.name[0] >= 'A' && a.name[0] <= 'Z') {
+			return t, false
+		}
+		for i := 0; i < len(a.name); i++ {
+			if !scanWordByte(a.name[i], false) || strings.IndexByte("._*/-", a.name[i]) >= 0 {
+				return t, false
+			}
+		}
+		if names[upFirst(a.name)] {
+			return t, false
+		}
+		names[upFirst(a.name)] = true
+		t.args = append(t.args, a)
+	}
+	return t, true
+}
+
+var scanStructWords = []string{"0", "*", "*/5", "1-5", "30", "mon", "tue", "sat", "UTC", "v8", "turbo", "a.b", "x_y", "min=3", "eq=abc", "Z"}
+var scanStructNames = []string{"cron", "on", "zone", "note", "list", "opt", "Window", "retry", "k2"}
+
+func (g *scanGenSt) structGroup(depth int) string {
+	r := g.r
+	br := []string{"()", "[]", "{}"}[r.Intn(3)]
+	n := 1 + r.Intn(5)
+	var sb strings.Builder
+	sb.WriteByte(br[0])
+	for i := 0; i < n; i++ {
+		if i > 0 {
+			sb.WriteString([]string{" ", " ", " ", ", ", ","}[r.Intn(5)])
+		}
+		if depth < 2 && r.P(1, 8) {
+			sb.WriteString(g.structGroup(depth + 1))
+		} else {
+			sb.WriteString(scanStructWords[r.Intn(len(scanStructWords))])
+		}
+	}
+	sb.WriteByte(br[1])
+	return sb.String()
+}
+
+// structTag: a structured custom tag; most of them carry a bracketed item with blanks inside, many carry several
+// blank-separated items (words and groups mixed)
+func (g *scanGenSt) structTag() scanStructTag {
+	r := g.r
+	for tries := 0; ; tries++ {
+		t := scanStructTag{val: []string{"", "v", "purge", "some.value", "a-b", "job/1"}[r.Intn(6)]}
+		na := 1 + r.Intn(3)
+		perm := r.Perm(len(scanStructNames))
+		for i := 0; i < na; i++ {
+			a := scanArg{name: scanStructNames[perm[i]]}
+			switch c := r.Intn(10); {
+			case c < 1:
+				a.flag = true
+			case c < 3: // words only
+				for k := 1 + r.Intn(3); k > 0; k-- {
+					a.items = append(a.items, scanStructWords[r.Intn(len(scanStructWords))])
+				}
+			case c < 6: // one group
+				a.items = []string{g.structGroup(0)}
+			default: // several items, words and groups mixed
+				for k := 2 + r.Intn(3); k > 0; k-- {
+					if r.P(1, 2) {
+						a.items = append(a.items, g.structGroup(0))
+					} else {
+						a.items = append(a.items, scanStructWords[r.Intn(len(scanStructWords))])
+					}
+				}
+			}
+			t.args = append(t.args, a)
+		}
+		// harness sanity: the text reads back as the structure it was rendered from
+		if back, ok := scanParseStruct(t.text()); (ok && reflect.DeepEqual(back.argMap(), t.argMap()) && back.val == t.val) || tries > 20 {
+			return t
+		}
+	}
 }
 
 // oracle (i): against the flattened arrangement, unit by unit (by position: repeated names are suffixed in the flat form)
@@ -825,6 +1076,27 @@ func scanLabels(kids []*scanNode, r *scanResult, extra ...string) []string {
 	}
 	for k := range kinds {
 		tags = append(tags, "tag-"+k)
+	}
+	structured, blankInGroup := false, false
+	for _, u := range r.units {
+		if tv, ok := reflect.StructTag(u.n.tagText()).Lookup(scanCustomTag); ok && scanExported(u.n.name) {
+			if st, ok := scanParseStruct(tv); ok {
+				structured = true
+				for _, a := range st.args {
+					for _, it := range a.items {
+						if strings.Contains(it, " ") {
+							blankInGroup = true
+						}
+					}
+				}
+			}
+		}
+	}
+	if structured {
+		tags = append(tags, "custom-structured")
+	}
+	if blankInGroup {
+		tags = append(tags, "custom-blank-in-brackets")
 	}
 	tags = append(tags, fmt.Sprintf("units%d", len(r.units)/4*4))
 	am, amt, sh, di := scanNameStats(kids)
@@ -1063,6 +1335,9 @@ var scanNeutralArgs = []string{",note=a b", ",k", ",X=(1,2)", ",note=", ",a=1,b=
 
 func (g *scanGenSt) customVal() string {
 	r := g.r
+	if r.P(1, 2) {
+		return g.structTag().text()
+	}
 	v := []string{"", "v", "some.value", "${s.k1}", "{a,b}", "x y", "#{1+1}", "q\"uote", "back\\slash", "(u,v)w"}[r.Intn(10)]
 	n := r.Intn(3)
 	for i := 0; i < n; i++ {
@@ -1537,6 +1812,19 @@ func scanCorpus(w *hx.Writer) {
 	flat := scanCase("G", scanFlatten(deep), nil, nil, []string{"corpus", "flat"}, w)
 	scanCase("G", deep, nil, flat, []string{"corpus", "base"}, w)
 	scanCase("G", nil, nil, nil, []string{"corpus"}, w)
+	// structured custom tags (arguments whose values contain blanks inside brackets, several items) directly on the
+	// component and through 1 / 2 / 4 embedded levels
+	job := func(name, v string) *scanNode { return leaf(name, "s", scanKV{scanCustomTag, v}) }
+	sched := []*scanNode{
+		job("Purge", "purge,cron=(0 */5 * * *),zone=UTC"),
+		emb("Jobs", job("Rotate", "rotate,on=[mon tue] [sat sun]"),
+			emb("Reports", job("Digest", "digest,cron=(30 2 * * 1-5),flag"),
+				emb("L3", emb("L4", job("Deep", ",list={a.b, x_y} 30 (v8 turbo) Z,opt=[([0 1] *)],Window=(1-5)"))))),
+		job("hidden", "h,cron=(0 0 * * *)"),
+		leaf("Eng", "pa", scanKV{"wire", ""}, scanKV{scanCustomTag, "eng,note=(v8 turbo) x"}),
+	}
+	sfl := scanCase("G", scanFlatten(sched), nil, nil, []string{"corpus", "flat"}, w)
+	scanCase("G", sched, nil, sfl, []string{"corpus", "base"}, w)
 	// repeated names: sibling mix-ins with an equally named field; a diamond; a shadowed name
 	dep := func() *scanNode { return leaf("Dep", "pa", scanKV{"wire", ""}) }
 	base := func() *scanNode {
